@@ -6,6 +6,7 @@
   sliding flow).  NOT reached: which heads of the sliding flow are loose after `slide` (per element kind), `_advance_head_front`, `_finish_flow` (main restart), `add_new_flow_instance`, `_resolve_action_conflicts`, the loops.
 -/
 import NemoVerif.Lemmas.CoreVMStop
+import NemoVerif.Lemmas.CoreVMKeepsRun
 open NemoVerif NemoVerif.CoreIndex
 open Std.Do
 set_option mvcgen.warning false
@@ -347,5 +348,249 @@ end slideops
     `_abort_flow`s, the `Abort` element), every loose head stays in the worklist `W` or belongs to `f` — on every outcome -/
 theorem slide_coversOrFlow (f : FUid) (W : List Key) (fuel : Nat) (h : HUid) : Keeps (covFlowInv f W) (slide fuel f h) :=
   slide_keeps_ops (covFlowInv f W) f (fun _ ho => ho) fuel h
+
+
+/-! ### new instances and the restarted main flow park on element 0 -/
+
+theorem lookup_append_of_none {κ α} [DecidableEq κ] (k : κ) (v : α) (l : List (κ × α)) (h : OMap.lookup k l = none) :
+    OMap.lookup k (l ++ [(k, v)]) = some v := by
+  induction l with
+  | nil => simp [OMap.lookup]
+  | cons e rest ih =>
+    obtain ⟨k', v'⟩ := e
+    simp only [OMap.lookup, List.cons_append] at *
+    split at h
+    · cases h
+    · rename_i hne; simp only [hne, if_false]; exact ih h
+
+/-- `PendingCovers W` for a fixed program -/
+def covProgInv (W : List Key) (p0 : Prog) : StInv where
+  J s := s.r.prog = p0 ∧ PendingCovers W s
+  okOp := CovOp W
+  frame := fun s g h hg => ⟨by rw [(hg s.r).1]; exact h.1, pendingCovers_frame hg h.2⟩
+  step := fun s op hg h hop => ⟨h.1, (covInv W).step s op hg h.2 hop⟩
+
+/-- the new instance of `add_new_flow_instance` parks on element 0 (a `match`): `PendingCovers` is kept by the `addInst` operation
+    once the instance's flow id is in place -/
+theorem pendingCovers_addInst {W : List Key} {s : VM} {uid : FUid} {hu : HUid} {nm0 : Option String} {cfg : FlowCfg}
+    {spec : Spec} {internal : Bool}
+    (hg : (Op.addInst uid hu nm0).guard s.ixs.ix = true) (h : PendingCovers W s)
+    (hid : OMap.lookup uid (flowIds s.r) = some cfg.id) (hp : s.r.prog.find cfg.id = some cfg)
+    (h0 : cfg.elements[0]? = some (.matchOp spec internal)) :
+    PendingCovers W { s with ixs := s.ixs.apply (.addInst uid hu nm0) hg } := by
+  rw [pendingCovers_iff_pcl] at h ⊢
+  show PCL (ParkedAt s) (· ∈ W) (step s.ixs.ix (.addInst uid hu nm0)).insts
+  rw [insts_step]
+  intro i hi hd hhd hl hne hc
+  simp only [stepInsts, List.mem_append, List.mem_singleton] at hi
+  rcases hi with hi | hi
+  · exact h i hi hd hhd hl hne hc
+  · subst hi
+    simp only [List.mem_singleton] at hhd
+    subst hhd
+    exfalso
+    apply hc
+    exact ⟨rfl, cfg.id, cfg, _, hid, hp, h0, Or.inl rfl⟩
+
+
+/-- the restarted main flow parks on element 0 as well -/
+theorem pendingCovers_mainRestart {W : List Key} {s : VM} {f : FUid} {hu : HUid} {nm0 : Option String} {cfg : FlowCfg}
+    {spec : Spec} {internal : Bool}
+    (hg : (Op.mainRestart f hu nm0).guard s.ixs.ix = true) (h : PendingCovers W s)
+    (hid : OMap.lookup f (flowIds s.r) = some cfg.id) (hp : s.r.prog.find cfg.id = some cfg)
+    (h0 : cfg.elements[0]? = some (.matchOp spec internal)) :
+    PendingCovers W { s with ixs := s.ixs.apply (.mainRestart f hu nm0) hg } := by
+  rw [pendingCovers_iff_pcl] at h ⊢
+  show PCL (ParkedAt s) (· ∈ W) (step s.ixs.ix (.mainRestart f hu nm0)).insts
+  rw [insts_step]
+  simp only [stepInsts]
+  split
+  · exact h
+  · intro i' hi' hd hhd hl hne hc
+    obtain ⟨i, hi, e⟩ := mem_mapInst hi'
+    subst e
+    split at hhd <;> rename_i hf
+    · simp only [List.mem_singleton] at hhd
+      subst hhd
+      exfalso
+      apply hc
+      rw [if_pos hf]
+      exact ⟨rfl, cfg.id, cfg, _, by rw [hf]; exact hid, hp, h0, Or.inl rfl⟩
+    · rw [if_neg hf] at hl hc ⊢
+      exact h i hi hd hhd hl hne hc
+
+/-- appending the extras of a NEW instance (no entry under `uid` yet) keeps `PendingCovers` and puts its flow id in place -/
+theorem covProg_append {W : List Key} {p0 : Prog} {s s' : VM} {uid : FUid} {x : InstX} {id : String}
+    (h : (covProgInv W p0).J s) (hnone : ¬ (OMap.lookup uid s.r.fx).isSome = true)
+    (hix : s'.ixs = s.ixs) (hprog : s'.r.prog = s.r.prog) (hfx : s'.r.fx = s.r.fx ++ [(uid, x)]) (hid : x.flowId = id) :
+    (covProgInv W p0).J s' ∧ OMap.lookup uid (flowIds s'.r) = some id := by
+  subst hid
+  refine ⟨⟨by rw [hprog]; exact h.1, ?_⟩, ?_⟩
+  · intro i hi hd hhd ⟨hl, hne, hc⟩
+    rw [hix] at hi
+    refine h.2 i hi hd hhd ⟨hl, hne, fun hp => hc ⟨hp.1, ?_⟩⟩
+    obtain ⟨id, cfg, el, h1, h2, h3, h4⟩ := hp.2
+    refine ⟨id, cfg, el, ?_, by rw [hprog]; exact h2, h3, h4⟩
+    simp only [flowIds, hfx, List.map_append]
+    exact lookup_append_of_some _ _ _ _ h1
+  · simp only [flowIds, hfx, List.map_append, List.map_cons, List.map_nil]
+    apply lookup_append_of_none
+    rw [lookup_flowIds, Option.not_isSome_iff_eq_none.mp hnone]; rfl
+
+theorem covProg_append_J {W : List Key} {p0 : Prog} {s s' : VM} {uid : FUid} {x : InstX}
+    (h : (covProgInv W p0).J s) (hnone : ¬ (OMap.lookup uid s.r.fx).isSome = true)
+    (hix : s'.ixs = s.ixs) (hprog : s'.r.prog = s.r.prog) (hfx : s'.r.fx = s.r.fx ++ [(uid, x)]) :
+    (covProgInv W p0).J s' := (covProg_append h hnone hix hprog hfx rfl).1
+
+section addnew
+attribute [local spec] forInL_keeps mapM_keeps freshUid_keeps modInstX_keeps ctxHolder_keeps getCtx_keeps setCtxVar_keeps modHeadX_keeps getCfg_keeps valueErr_keeps lookupVar_keeps attrOf_keeps evalExpr_keeps evalIn_keeps evalEmpty_keeps evalArgs_keeps instanceArguments_keeps
+
+set_option maxHeartbeats 4000000 in
+/-- **`add_new_flow_instance` keeps `PendingCovers W`** when the flow's first element is a `match` (true of every flow after
+    `expand_elements`) and the configuration is the program's -/
+theorem addNewFlowInstance_pendingCovers (W : List Key) (p0 : Prog) (uid : FUid) (cfg : FlowCfg) (hp : String)
+    (args : List (String × Val)) (hcfg : p0.find cfg.id = some cfg) (spec : Spec) (internal : Bool)
+    (h0 : cfg.elements[0]? = some (.matchOp spec internal)) :
+    Keeps (covProgInv W p0) (addNewFlowInstance uid cfg hp args) := by
+  have hadd : ∀ hu nm0, ⦃fun s => ⌜(covProgInv W p0).J s ∧ OMap.lookup uid (flowIds s.r) = some cfg.id⌝⦄
+      applyOp (.addInst uid hu nm0) ⦃post⟨fun _ s => ⌜(covProgInv W p0).J s⌝, fun _ s => ⌜(covProgInv W p0).J s⌝⟩⦄ := by
+    intro hu nm0
+    apply applyOp_wp
+    · intro s hg ⟨⟨h1, h2⟩, h3⟩
+      exact ⟨h1, pendingCovers_addInst hg h2 h3 (by rw [h1]; exact hcfg) h0⟩
+    · intro s hh; exact hh.1
+  unfold addNewFlowInstance
+  mvcgen [hadd, getInstX?, getRest, modifyRest, pyRaise, unsupported]
+  all_goals (first
+    | (intros; trivial)
+    | (rename_i t ; simp only [t]; first | (apply covProg_append (s := _) <;> first | assumption | rfl) | (apply covProg_append_J (s := _) <;> first | assumption | rfl))
+    | (rename_i t _; simp only [t]; first | (apply covProg_append (s := _) <;> first | assumption | rfl) | (apply covProg_append_J (s := _) <;> first | assumption | rfl))
+    | (rename_i t _ _; simp only [t]; first | (apply covProg_append (s := _) <;> first | assumption | rfl) | (apply covProg_append_J (s := _) <;> first | assumption | rfl))
+    | (rename_i t _ _ _; simp only [t]; first | (apply covProg_append (s := _) <;> first | assumption | rfl) | (apply covProg_append_J (s := _) <;> first | assumption | rfl))
+    | (rename_i t _ _ _ _; simp only [t]; first | (apply covProg_append (s := _) <;> first | assumption | rfl) | (apply covProg_append_J (s := _) <;> first | assumption | rfl))
+    | (rename_i t _ _ _ _ _; simp only [t]; first | (apply covProg_append (s := _) <;> first | assumption | rfl) | (apply covProg_append_J (s := _) <;> first | assumption | rfl))
+    | (rename_i t _ _ _ _ _ _; simp only [t]; first | (apply covProg_append (s := _) <;> first | assumption | rfl) | (apply covProg_append_J (s := _) <;> first | assumption | rfl))
+    | (rename_i t _ _ _ _ _ _ _; simp only [t]; first | (apply covProg_append (s := _) <;> first | assumption | rfl) | (apply covProg_append_J (s := _) <;> first | assumption | rfl))
+    | (rename_i t _ _ _ _ _ _ _ _; simp only [t]; first | (apply covProg_append (s := _) <;> first | assumption | rfl) | (apply covProg_append_J (s := _) <;> first | assumption | rfl))
+    | (rename_i t _ _ _ _ _ _ _ _ _; simp only [t]; first | (apply covProg_append (s := _) <;> first | assumption | rfl) | (apply covProg_append_J (s := _) <;> first | assumption | rfl))
+    | (rename_i t _ _ _ _ _ _ _ _ _ _; simp only [t]; first | (apply covProg_append (s := _) <;> first | assumption | rfl) | (apply covProg_append_J (s := _) <;> first | assumption | rfl))
+    | (rename_i t _ _ _ _ _ _ _ _ _ _ _; simp only [t]; first | (apply covProg_append (s := _) <;> first | assumption | rfl) | (apply covProg_append_J (s := _) <;> first | assumption | rfl))
+    | (rename_i t _ _ _ _ _ _ _ _ _ _ _ _; simp only [t]; first | (apply covProg_append (s := _) <;> first | assumption | rfl) | (apply covProg_append_J (s := _) <;> first | assumption | rfl))
+    | skip)
+end addnew
+
+
+
+/-! ### `_finish_flow` -/
+
+/-- every flow of the program starts with a `match` element (true after `expand_elements`: `match StartFlow(flow_id=…)`) -/
+def FirstIsMatch (p : Prog) : Prop := ∀ cfg ∈ p.flows, ∃ sp i, cfg.elements[0]? = some (.matchOp sp i)
+
+theorem find_mem {p : Prog} {id : String} {cfg : FlowCfg} (h : p.find id = some cfg) : cfg ∈ p.flows ∧ cfg.id = id := by
+  unfold Prog.find at h
+  exact ⟨List.mem_of_find?_eq_some h, by simpa using List.find?_some h⟩
+
+/-- `cfgOfInst f`, precisely: the answer is the program's configuration of the flow id of `f` -/
+theorem cfgOfInst_facts (W : List Key) (p0 : Prog) (f : FUid) :
+    ⦃fun s => ⌜(covProgInv W p0).J s⌝⦄ cfgOfInst f
+    ⦃post⟨fun cfg s => ⌜(covProgInv W p0).J s ∧ OMap.lookup f (flowIds s.r) = some cfg.id ∧ p0.find cfg.id = some cfg⌝,
+          fun _ s => ⌜(covProgInv W p0).J s⌝⟩⦄ := by
+  unfold cfgOfInst getInstX getInstX? getCfg
+  mvcgen [getRest, pyRaise]
+  rename_i s0 hs x hx cfg hcfg
+  have hid := (find_mem hcfg).2
+  refine ⟨hs, ?_, ?_⟩
+  · simp only [flowIds, lookup_flowIds, hx, Option.map_some, hid]
+  · rw [hid, ← hs.1]; exact hcfg
+
+
+section fin
+attribute [local spec] forInL_keeps mapM_keeps getRest_keeps getIx_keeps pyRaise_keeps unsupported_keeps modifyRest_keeps freshUid_keeps getInst?_keeps getInst_keeps getInstX?_keeps getInstX_keeps modInstX_keeps ctxHolder_keeps getCtx_keeps setCtxVar_keeps getHead?_keeps getHeadX_keeps modHeadX_keeps getCfg_keeps getAction?_keeps setAction_keeps pushEvent_keeps pushLeftEvent_keeps valueErr_keeps lookupVar_keeps attrOf_keeps evalExpr_keeps evalIn_keeps evalEmpty_keeps evalArgs_keeps
+attribute [local spec] attemptPy_keeps instanceArguments_keeps flowObjOf_keeps flowStartEvent_keeps flowGetEvent_keeps actionGetEvent_keeps tempAction_keeps tempFlowObj_keeps resolveRef_keeps getEventName_keeps getEvent_keeps eventMatchingScore_keeps updateActionStatusByEvent_keeps generateUmimEvent_keeps releaseAction_keeps isReferenceActivated_keeps isChildActivated_keeps failedEvent_keeps restartActivated_keeps logActionOrIntents_keeps nameFor_keeps headScores_keeps headKeyScores_keeps labelPos_keeps pickChoice_keeps
+
+set_option maxHeartbeats 4000000 in
+/-- **`_finish_flow` keeps `PendingCovers W`** (every worklist) in programs whose flows start with a `match`: the children are
+    aborted, the heads dropped, the instance leaves the listening statuses — or, for the main flow, restarts parked on element 0 -/
+theorem finishFlow_pendingCovers (W : List Key) (p0 : Prog) (hfirst : FirstIsMatch p0) (fuel : Nat) (f : FUid) (sc : List Score) (d : Bool) :
+    Keeps (covProgInv W p0) (finishFlow fuel f sc d) := by
+  have hab : ∀ op, AbortOp op → (covProgInv W p0).okOp op := by
+    intro op h
+    cases op <;> simp only [AbortOp] at h <;> simp only [covProgInv, CovOp, CovOpP]
+    subst h; rfl
+  have h1 := abortFlow_keeps_abortOps (covProgInv W p0) hab fuel
+  have h2 := fun f => setFlowStatus_keeps (covProgInv W p0) f .finished (by simp only [covProgInv, CovOp, CovOpP]; rfl)
+  have h3 := cfgOfInst_facts W p0
+  have hmr : ∀ (cfg : FlowCfg) hu nm0, ⦃fun s => ⌜(covProgInv W p0).J s ∧ OMap.lookup f (flowIds s.r) = some cfg.id ∧ p0.find cfg.id = some cfg⌝⦄
+      applyOp (.mainRestart f hu nm0) ⦃post⟨fun _ s => ⌜(covProgInv W p0).J s⌝, fun _ s => ⌜(covProgInv W p0).J s⌝⟩⦄ := by
+    intro cfg hu nm0
+    apply applyOp_wp
+    · intro s hg ⟨⟨hp, hc⟩, hid, hfind⟩
+      obtain ⟨sp, i, h0⟩ := hfirst cfg (find_mem hfind).1
+      exact ⟨hp, pendingCovers_mainRestart hg hc hid (by rw [hp]; exact hfind) h0⟩
+    · intro s hh; exact hh.1
+  have hdrop : ∀ f, Keeps (covProgInv W p0) (applyOp (.dropHeads f)) := fun f => applyOp_keeps _ _ trivial
+  unfold finishFlow dropHeads
+  simp only [forIn_eq_forInL]
+  mvcgen [h1, h2, h3, hmr, hdrop]
+  all_goals (first | rest_frame | (intros; trivial) | (intros; simp) | skip)
+end fin
+
+
+/-! ### `_process_internal_events_without_default_matchers` -/
+
+/-- `add_new_flow_instance` for a configuration of a program whose flows start with a `match` -/
+theorem addNewFlowInstance_pendingCovers' (W : List Key) (p0 : Prog) (hfirst : FirstIsMatch p0) (uid : FUid) (cfg : FlowCfg)
+    (hp : String) (args : List (String × Val)) (hcfg : p0.find cfg.id = some cfg) :
+    Keeps (covProgInv W p0) (addNewFlowInstance uid cfg hp args) := by
+  obtain ⟨sp, i, h0⟩ := hfirst cfg (find_mem hcfg).1
+  exact addNewFlowInstance_pendingCovers W p0 uid cfg hp args hcfg sp i h0
+
+/-- `getCfg`, precisely -/
+theorem getCfg_facts (W : List Key) (p0 : Prog) (id : String) :
+    ⦃fun s => ⌜(covProgInv W p0).J s⌝⦄ getCfg id
+    ⦃post⟨fun cfg s => ⌜(covProgInv W p0).J s ∧ p0.find cfg.id = some cfg⌝, fun _ s => ⌜(covProgInv W p0).J s⌝⟩⦄ := by
+  unfold getCfg getRest
+  mvcgen [pyRaise]
+  rename_i s0 hs cfg hcfg
+  refine ⟨hs, ?_⟩
+  rw [(find_mem hcfg).2, ← hs.1]; exact hcfg
+
+
+section pie
+attribute [local spec] forInL_keeps mapM_keeps getIx_keeps pyRaise_keeps unsupported_keeps modifyRest_keeps freshUid_keeps getInst?_keeps getInst_keeps getInstX?_keeps getInstX_keeps modInstX_keeps ctxHolder_keeps getCtx_keeps setCtxVar_keeps getHead?_keeps getHeadX_keeps modHeadX_keeps getAction?_keeps setAction_keeps pushEvent_keeps pushLeftEvent_keeps valueErr_keeps lookupVar_keeps attrOf_keeps evalExpr_keeps evalIn_keeps evalEmpty_keeps evalArgs_keeps
+attribute [local spec] attemptPy_keeps instanceArguments_keeps flowObjOf_keeps flowStartEvent_keeps flowGetEvent_keeps actionGetEvent_keeps tempAction_keeps tempFlowObj_keeps resolveRef_keeps getEventName_keeps getEvent_keeps eventMatchingScore_keeps updateActionStatusByEvent_keeps generateUmimEvent_keeps releaseAction_keeps isReferenceActivated_keeps isChildActivated_keeps failedEvent_keeps restartActivated_keeps logActionOrIntents_keeps nameFor_keeps headScores_keeps headKeyScores_keeps labelPos_keeps pickChoice_keeps argStr_keeps
+
+set_option maxHeartbeats 8000000 in
+/-- **`_process_internal_events_without_default_matchers` keeps `PendingCovers W`** (StartFlow: the new instance parks at once;
+    FinishFlow / StopFlow by uid or by name: `_finish_flow` / `_abort_flow`) -/
+theorem processInternalEvent_pendingCovers (W : List Key) (p0 : Prog) (hfirst : FirstIsMatch p0) (fuel : Nat) (e : Event) :
+    Keeps (covProgInv W p0) (processInternalEvent fuel e) := by
+  have hab : ∀ op, AbortOp op → (covProgInv W p0).okOp op := by
+    intro op h
+    cases op <;> simp only [AbortOp] at h <;> simp only [covProgInv, CovOp, CovOpP]
+    subst h; rfl
+  have h1 := abortFlow_keeps_abortOps (covProgInv W p0) hab fuel
+  have h2 := finishFlow_pendingCovers W p0 hfirst fuel
+  have h3 := addNewFlowInstance_pendingCovers' W p0 hfirst
+  have h4 := getCfg_facts W p0
+  have h5 := referenceActivatedInstance_keeps (covProgInv W p0)
+  unfold processInternalEvent
+  simp only [forIn_eq_forInL]
+  mvcgen [h1, h2, h3, h4, h5, getRest]
+  all_goals (first
+    | rest_frame
+    | (intros; trivial)
+    | assumption
+    | (rename_i hh ; first | exact hh.1 | exact hh.2)
+    | (rename_i hh _; first | exact hh.1 | exact hh.2)
+    | (rename_i hh _ _; first | exact hh.1 | exact hh.2)
+    | (rename_i hh _ _ _; first | exact hh.1 | exact hh.2)
+    | (rename_i hh _ _ _ _; first | exact hh.1 | exact hh.2)
+    | (rename_i hh _ _ _ _ _; first | exact hh.1 | exact hh.2)
+    | (rename_i hh _ _ _ _ _ _; first | exact hh.1 | exact hh.2)
+    | (rename_i hh _ _ _ _ _ _ _; first | exact hh.1 | exact hh.2)
+    | (intros; simp)
+    | skip)
+end pie
 
 end NemoVerif.CoreVM
